@@ -187,6 +187,11 @@ def run(ctx):
         ok = len(types) == 1 and not (types & {"bool", "_Bool", "char", "unsigned char", "signed char"})
         ctx.check(ok, "R11.7", NS + "toggle", "one-count-type", "the count is carried through different types %s: a declared default (or a count) is narrowed on the way, e.g. default 3 reported as 1"
                   % norm, "%s:%d" % (tc["file"], tc["line"]), why_ok=str(sorted(types)))
+    ctx.rule("R11.8", "the word that is compared is the variable verbatim (R19.1) and every parse entry point resets the count first (R14.3)")
+    if ctx.prop == "C11" and not getattr(ctx, "_sharing", False):
+        from .common import share
+        share(ctx, "C19", ("R19.1",), "R11.8", "env::get obligations shared with C19", 4)
+        share(ctx, "C14", ("R14.3",), "R11.8", "reset-pass obligations shared with C14", 4)
     # ---- R11.4
     pe = one(ctx, "R11.4", NS + "toggle::parse_env_value")
     if pe:
